@@ -9,6 +9,11 @@ truncation, duplicate / root defects, panics) for every generated object and eve
 """
 
 
+def generate(ctx):
+    """(T) codec inventory regenerated from the anchored Go files: every type with a codec pair must have a schema."""
+    return ctx.run_extract("codecinv", [], out_lean="CodecInventory.lean")
+
+
 def run(ctx):
     ctx.level = "proof"
     ctx.assumptions += [
@@ -17,8 +22,9 @@ def run(ctx):
         "Go runtime makeslice panics iff len > maxInt or len*elemsize > 2^48 (linux/amd64); huge non-panicking allocations (out-of-memory crash) are not modelled",
         "guards are modelled right after their field; Go checks the tx type after reading four more fixed fields (same accept/reject set; error kinds are not compared)",
     ]
-    ctx.cov["trusted_base"] += ["harness hcodec/ledgerobj + drv_codec (correspondence check)", "Lean compiler for the driver",
+    ctx.cov["trusted_base"] += ["translator extract/codecinv (go/parser: lists the types with a codec pair in the anchored files)", "harness hcodec/ledgerobj + drv_codec (correspondence check)", "Lean compiler for the driver",
                                 "key library ontology-crypto (verdicts passed to the model)"]
+    generate(ctx)
     ctx.lean_props()
     hbin = ctx.build_harness("hcodec")
     drv = ctx.build_driver("drv_codec")
